@@ -189,6 +189,8 @@ pub struct ViCut {
 	pub mode: Box<dyn ViMode>,
 	pub repeat_action: Option<CmdReplay>,
 	pub repeat_motion: Option<MotionCmd>,
+	/// The command that opened the current insert/replace session, kept so that '.' can repeat the whole session
+	pub insert_entry: Option<ViCmd>,
 	pub buffers: Vec<LineBuf>, // This is a vector of buffers, so we can have multiple buffers open at once
 	pub editor: ClampedUsize, // This is the index of the current buffer in the `buffers` vector
 
@@ -226,6 +228,7 @@ impl ViCut {
 			mode: Box::new(ViNormal::new()),
 			repeat_action: None,
 			repeat_motion: None,
+			insert_entry: None,
 			buffers: vec![LineBuf::new().with_initial(input, cursor)], // We start with only the main buffer open
 			editor: ClampedUsize::new(0, 1, true), // Index of the currently active buffer
 																						 // ClampedUsize is used to ensure that the index is always within bounds
@@ -392,16 +395,29 @@ impl ViCut {
 			Verb::InsertMode => {
 				is_insert_mode = true;
 				inserting_from_visual = self.mode.report_mode() == ModeReport::Visual;
+				self.insert_entry = Some(cmd.clone());
 
 				Box::new(ViInsert::new().with_count(count as u16))
 			}
 
 			Verb::NormalMode => {
+				// A count given when the session was opened repeats the typed text
+				if matches!(self.mode.report_mode(), ModeReport::Insert | ModeReport::Replace) {
+					if let Some(CmdReplay::ModeReplay { cmds, repeat }) = self.mode.as_replay() {
+						let typed = &cmds[..cmds.len().saturating_sub(1)]; // without this <esc>
+						for _ in 1..repeat {
+							for typed_cmd in typed {
+								self.current_buffer().exec_cmd(typed_cmd.clone())?;
+							}
+						}
+					}
+				}
 				Box::new(ViNormal::new())
 			}
 
 			Verb::ReplaceMode => {
-				Box::new(ViReplace::new())
+				self.insert_entry = Some(cmd.clone());
+				Box::new(ViReplace::new().with_count(count as u16))
 			}
 
 			Verb::VisualModeSelectLast => {
@@ -456,6 +472,12 @@ impl ViCut {
 
 		if mode.is_repeatable() {
 			self.repeat_action = mode.as_replay();
+			// '.' repeats the whole session: the command that opened it, then what was typed
+			if let Some(CmdReplay::ModeReplay { cmds, .. }) = self.repeat_action.as_mut() {
+				if let Some(entry) = self.insert_entry.take() {
+					cmds.insert(0, entry);
+				}
+			}
 		}
 
 		let should_clamp = self.mode.clamp_cursor();
@@ -484,15 +506,44 @@ impl ViCut {
 		let VerbCmd(count,_) = verb.unwrap();
 		match replay {
 			CmdReplay::ModeReplay { cmds, mut repeat } => {
+				let opens = |c: &ViCmd| c.verb().is_some_and(|v| matches!(v.1, Verb::InsertMode | Verb::Change | Verb::InsertModeLineBreak(_) | Verb::ReplaceMode));
+				let closes = |c: &ViCmd| c.verb().is_some_and(|v| matches!(v.1, Verb::NormalMode));
+				let (entry, rest) = match cmds.split_first() {
+					Some((first, rest)) if opens(first) => (Some(first.clone()), rest),
+					_ => (None, &cmds[..])
+				};
+				let (exit, typed) = match rest.split_last() {
+					Some((last, typed)) if closes(last) => (Some(last.clone()), typed),
+					_ => (None, rest)
+				};
+				let mut entry = entry;
 				if count > 1 {
-					repeat = count as u16;
-				}
-				for _ in 0..repeat {
-					let cmds = cmds.clone();
-					for cmd in cmds {
-						self.current_buffer().exec_cmd(cmd)?
+					// A count replaces the session's own: on the motion of a change, else as the number of repetitions
+					match entry.as_mut() {
+						Some(entry) if entry.verb().is_some_and(|v| matches!(v.1, Verb::Change)) && entry.motion.is_some() => {
+							if let Some(v_mut) = entry.verb.as_mut() { v_mut.0 = count }
+							if let Some(m_mut) = entry.motion.as_mut() { m_mut.0 = 1 }
+							entry.normalize_counts();
+						}
+						_ => repeat = count as u16
 					}
 				}
+				// The session is replayed under the clamp it was typed with: entry once, the text `repeat` times, <esc> once
+				let replace_mode = entry.as_ref().is_some_and(|c| c.verb().is_some_and(|v| matches!(v.1, Verb::ReplaceMode)));
+				self.current_buffer().set_cursor_clamp(replace_mode);
+				if let Some(entry) = entry {
+					self.current_buffer().exec_cmd(entry)?;
+				}
+				for _ in 0..repeat.max(1) {
+					for cmd in typed {
+						self.current_buffer().exec_cmd(cmd.clone())?
+					}
+				}
+				self.current_buffer().set_cursor_clamp(true);
+				if let Some(exit) = exit {
+					self.current_buffer().exec_cmd(exit)?;
+				}
+				self.current_buffer().enforce_cursor_clamp();
 			}
 			CmdReplay::Single(mut cmd) => {
 				if count > 1 {
